@@ -43,8 +43,34 @@ def family(rng, tier, forms_secret=SECRET_FORMS, forms_dh=DH_FORMS, want_pred=No
     return cs
 
 
+def large_cases(rng, want_pred=None):
+    """beyond every small-length sweep: bodies just above 64 KiB, one corruption each, every classic open form"""
+    cs = []
+    for n in (65536, 65537, 70001):
+        I = Inst(rng, n, style=0)
+        for form in OPEN_FORMS:
+            f = form.split(" ")[0]
+            if "obj" in f:
+                continue
+            sealed = "seal" in f
+            secret = f.startswith("secretbox")
+            ct = I.sealed if sealed else (I.sb if secret else I.bx)
+            over = 48 if sealed else 16
+            cs.append(Case(open_line(form, I), cls="large-untampered/" + f, expect=(lambda a, e="ok " + hx(I.msg): a == e)))
+            for pos in (over - 1, over, len(ct) // 2, len(ct) - 1):
+                t = bytearray(ct); t[pos] ^= 0x10
+                t = bytes(t)
+                if "inplace" in f:
+                    initial = t[16:] if "detached" in f else t
+                else:
+                    initial = buf(len(t) - over)
+                pred = want_pred(initial) if want_pred else (lambda a: a.startswith("err"))
+                cs.append(Case(open_line(form, I, ct=t), cls="large-flip/" + f, expect=pred, meta={"why": "a tampered %d-byte input was not rejected cleanly" % n}))
+    return cs
+
+
 def gen(rng, tier):
-    cs = corpus_cases("C02") + family(rng, tier)
+    cs = corpus_cases("C02") + family(rng, tier) + large_cases(rng)
     if streamfam:
         cs += streamfam.tamper_cases(rng, tier)
     return cs
@@ -58,7 +84,7 @@ def run(tier, seed, prop="C02", want_pred=None, forms=None):
     if prop == "C02":
         cases = gen(rng, tier)
     else:
-        cases = corpus_cases(prop) + family(rng, tier, forms_secret=[f for f in SECRET_FORMS if f in forms], forms_dh=[f for f in DH_FORMS if f in forms], want_pred=want_pred)
+        cases = corpus_cases(prop) + family(rng, tier, forms_secret=[f for f in SECRET_FORMS if f in forms], forms_dh=[f for f in DH_FORMS if f in forms], want_pred=want_pred) + large_cases(rng, want_pred)
         if streamfam:
             cases += streamfam.tamper_cases(rng, tier, c17=True)
     lines = assign_ids(cases)
